@@ -150,7 +150,7 @@ theorem ptU_self : PtSelf ptU := by
   rw [ptU_entries] at hm
   simp only [List.mem_cons, Prod.mk.injEq, List.not_mem_nil, or_false] at hm
   rcases hm with ⟨_, rfl⟩ | ⟨h, _⟩ | ⟨h, _⟩ | ⟨h, _⟩
-  · rfl
+  · decide
   · rw [sysPages_eq, sysSchema_eq] at h
     exact absurd h (by decide)
   · rw [sysPages_eq] at h
